@@ -83,6 +83,38 @@ fn c06_q_spsc_send_woken_by_recv() {
   assert!(rx.try_recv() == Ok(2), "C01: value of a completed send not delivered");
 }
 
+/// A pending send re-polled with a different waker: freeing space must wake the latest one.
+#[kani::proof]
+#[kani::unwind(4)]
+fn c06_q_spsc_send_repoll_other_waker() {
+  let (mut tx, mut rx) = spsc::bounded_async::<u8>(1);
+  assert!(tx.try_send(1).is_ok(), "C03: try_send into an empty channel failed");
+  let mut f = Some(tx.send(2));
+  assert!(poll_slot(&mut f, 0).is_pending(), "C03: send completed on a full channel");
+  assert!(poll_slot(&mut f, 1).is_pending(), "C03: send completed on a full channel");
+  assert!(rx.try_recv() == Ok(1), "C02: FIFO");
+  assert!(wakes(1) >= 1, "C06: pending send not woken through its latest waker when space appeared");
+  assert!(poll_slot(&mut f, 1).is_ready(), "C06: woken send did not complete");
+  f = None;
+  assert!(rx.try_recv() == Ok(2), "C01: value of a completed send not delivered");
+}
+
+/// Same for the batch future.
+#[kani::proof]
+#[kani::unwind(4)]
+fn c06_q_spsc_send_batch_repoll_other_waker() {
+  let (mut tx, mut rx) = spsc::bounded_async::<u8>(1);
+  assert!(tx.try_send(1).is_ok(), "C03: try_send into an empty channel failed");
+  let mut f = Some(tx.send_batch(vec![2]));
+  assert!(poll_slot(&mut f, 0).is_pending(), "C03: send_batch completed on a full channel");
+  assert!(poll_slot(&mut f, 1).is_pending(), "C03: send_batch completed on a full channel");
+  assert!(rx.try_recv() == Ok(1), "C02: FIFO");
+  assert!(wakes(1) >= 1, "C06: pending send_batch not woken through its latest waker when space appeared");
+  assert!(poll_slot(&mut f, 1).is_ready(), "C06: woken send_batch did not complete");
+  f = None;
+  assert!(rx.try_recv() == Ok(2), "C01: value of a completed send not delivered");
+}
+
 /// Cancelling a pending send: the value is not delivered later (no ghost delivery), the channel still works.
 #[kani::proof]
 #[kani::unwind(4)]
@@ -276,40 +308,43 @@ fn c01_t_spsc_async_send_batch_mut_cancel() {
   });
 }
 
-/// C04/C06 (async): a pending send / send_batch is woken when the receiver goes away and reports Closed,
-/// handing the unsent values back.
+/// C04/C06 (async): a pending send is woken when the receiver goes away and reports Closed.
 #[kani::proof]
 #[kani::unwind(5)]
 fn c04_q_spsc_async_pending_send_rx_gone() {
   let (mut tx, rx) = spsc::bounded_async::<u8>(1);
   assert!(tx.try_send(1).is_ok(), "C03: prefill failed");
-  let batch: bool = kani::any();
   let close: bool = kani::any();
-  if batch {
-    let mut f = Some(tx.send_batch(vec![10, 11]));
-    assert!(poll_slot(&mut f, 0).is_pending(), "C03: send_batch completed on a full channel");
-    if close { let _ = rx.close(); } else { drop(rx); }
-    assert!(wakes(0) >= 1, "C06: pending send_batch not woken when the receiver went away");
-    match poll_slot(&mut f, 0) {
-      Poll::Ready(Err(e)) => {
-        assert!(e.sent == 0 && e.unsent.len() == 2 && e.unsent[0] == 10 && e.unsent[1] == 11, "C01: Closed batch error does not hand the values back in order");
-      }
-      _ => assert!(false, "C04: send_batch did not report Closed after the receiver went away"),
-    }
-    std::mem::forget(f);
-  } else {
-    let mut f = Some(tx.send(2));
-    assert!(poll_slot(&mut f, 0).is_pending(), "C03: send completed on a full channel");
-    if close { let _ = rx.close(); } else { drop(rx); }
-    assert!(wakes(0) >= 1, "C06: pending send not woken when the receiver went away");
-    match poll_slot(&mut f, 0) {
-      Poll::Ready(Err(_)) => {}
-      _ => assert!(false, "C04: send did not report Closed after the receiver went away"),
-    }
-    std::mem::forget(f);
+  let mut f = Some(tx.send(2));
+  assert!(poll_slot(&mut f, 0).is_pending(), "C03: send completed on a full channel");
+  if close { let _ = rx.close(); } else { drop(rx); }
+  assert!(wakes(0) >= 1, "C06: pending send not woken when the receiver went away");
+  match poll_slot(&mut f, 0) {
+    Poll::Ready(Err(_)) => {}
+    _ => assert!(false, "C04: send did not report Closed after the receiver went away"),
   }
-  kani::cover!(batch && close, "batch, receiver closed");
-  kani::cover!(!batch && !close, "single, receiver dropped");
+  kani::cover!(close, "receiver closed");
+  kani::cover!(!close, "receiver dropped");
+  std::mem::forget(f);
+}
+
+/// Same for a pending send_batch: Closed hands every unsent value back, in order.
+#[kani::proof]
+#[kani::unwind(5)]
+fn c04_t_spsc_async_pending_send_batch_rx_gone() {
+  let (mut tx, rx) = spsc::bounded_async::<u8>(1);
+  assert!(tx.try_send(1).is_ok(), "C03: prefill failed");
+  let mut f = Some(tx.send_batch(vec![10, 11]));
+  assert!(poll_slot(&mut f, 0).is_pending(), "C03: send_batch completed on a full channel");
+  drop(rx);
+  assert!(wakes(0) >= 1, "C06: pending send_batch not woken when the receiver went away");
+  match poll_slot(&mut f, 0) {
+    Poll::Ready(Err(e)) => {
+      assert!(e.sent == 0 && e.unsent.len() == 2 && e.unsent[0] == 10 && e.unsent[1] == 11, "C01: Closed batch error does not hand the values back in order");
+    }
+    _ => assert!(false, "C04: send_batch did not report Closed after the receiver went away"),
+  }
+  std::mem::forget(f);
 }
 
 /// C09 (async): values inside cancelled futures and values left in the ring are dropped exactly once.
